@@ -16,7 +16,7 @@ def main():
     patch=open(diff).read()
     files=re.findall(r'^\+\+\+ b/(\S+)', patch, re.M)
     assert files and not any(f.endswith('_test.go') for f in files), files
-    mods=sorted({f.split('/')[0] for f in files})
+    mods=sorted({f.split('/')[0] for f in files} & {'bigtable','storage'})
     demos=[p for p in glob.glob(os.path.join(wt,'**',f'zz_seed{n}_demo_test.go'), recursive=True)]
     if not demos and n=='1':
         demos=[p for p in glob.glob(os.path.join(wt,'**','zz_seed_demo_test.go'), recursive=True)]
